@@ -35,7 +35,7 @@ def main():
         rc, out = sh("go build ./... && go vet ./... >/dev/null 2>&1; go test -count=1 ./... 2>&1 | grep -v '^ok\\|no test files' | head -20", wt)
         rec["confirmed"]["existing_tests_pass_with_patch"] = ("FAIL" not in out)
         rec["confirmed"]["test_output_with_patch"] = out[-800:]
-        loc = meta.get("demo_location", "").strip()
+        loc = meta.get("demo_location", "").strip().split()[0].strip("`'\"")
         loc = loc.replace("/tmp/wt-%s/" % prop, "").strip("/")
         if loc.startswith("/"):
             loc = loc.lstrip("/")
